@@ -94,7 +94,7 @@ pub fn enc_of(op: &Op) -> Enc {
         Op::Body { kind, hex: h, json, pairs } => match kind.as_str() {
             "string" | "bytes" | "into_str" | "into_vec" | "reader_none" | "reader_len" => Enc { hex: Some(h.clone()), ..Default::default() },
             "empty" => Enc { hex: Some(String::new()), ..Default::default() },
-            "json" | "into_value" => Enc { hex: Some(hex(&serde_json::to_vec(json.as_ref().unwrap()).unwrap())), ..Default::default() },
+            "json" | "into_value" => Enc { hex: Some(hex(&serde_json::to_vec(json.as_ref().unwrap_or(&serde_json::Value::Null)).unwrap())), ..Default::default() },
             "form" => {
                 let mine = form_encode(pairs.as_ref().unwrap());
                 let lib = serde_urlencoded::to_string(pairs.as_ref().unwrap()).ok();
@@ -162,11 +162,11 @@ macro_rules! apply_builder {
             $crate::desc::Op::Body { kind, hex: h, json, pairs } => match kind.as_str() {
                 "string" => Ok(b.body_string(String::from_utf8($crate::desc::unhex(h)).unwrap())),
                 "bytes" => Ok(b.body_bytes($crate::desc::unhex(h))),
-                "json" => b.body_json(json.as_ref().unwrap()).map_err(|e| e.to_string()),
+                "json" => b.body_json(json.as_ref().unwrap_or(&serde_json::Value::Null)).map_err(|e| e.to_string()),
                 "form" => b.body_form(pairs.as_ref().unwrap()).map_err(|e| e.to_string()),
                 "into_str" => Ok(b.body(std::str::from_utf8(&$crate::desc::unhex(h)).unwrap())),
                 "into_vec" => Ok(b.body($crate::desc::unhex(h))),
-                "into_value" => Ok(b.body(json.clone().unwrap())),
+                "into_value" => Ok(b.body(json.clone().unwrap_or(serde_json::Value::Null))),
                 "reader_none" => Ok(b.body(crux_http::http::Body::from_reader(futures::io::Cursor::new($crate::desc::unhex(h)), None))),
                 "reader_len" => { let v = $crate::desc::unhex(h); let n = v.len(); Ok(b.body(crux_http::http::Body::from_reader(futures::io::Cursor::new(v), Some(n)))) }
                 "empty" => Ok(b.body(crux_http::http::Body::empty())),
@@ -202,11 +202,11 @@ pub fn apply_request(r: &mut crux_http::Request, op: &Op) -> Result<(), String> 
         Op::Body { kind, hex: h, json, pairs } => match kind.as_str() {
             "string" => { r.body_string(String::from_utf8(unhex(h)).unwrap()); Ok(()) }
             "bytes" => { r.body_bytes(unhex(h)); Ok(()) }
-            "json" => r.body_json(json.as_ref().unwrap()).map_err(|e| e.to_string()),
+            "json" => r.body_json(json.as_ref().unwrap_or(&serde_json::Value::Null)).map_err(|e| e.to_string()),
             "form" => r.body_form(pairs.as_ref().unwrap()).map_err(|e| e.to_string()),
             "into_str" => { r.set_body(std::str::from_utf8(&unhex(h)).unwrap()); Ok(()) }
             "into_vec" => { r.set_body(unhex(h)); Ok(()) }
-            "into_value" => { r.set_body(json.clone().unwrap()); Ok(()) }
+            "into_value" => { r.set_body(json.clone().unwrap_or(serde_json::Value::Null)); Ok(()) }
             "reader_none" => { r.set_body(Body::from_reader(futures::io::Cursor::new(unhex(h)), None)); Ok(()) }
             "reader_len" => { let v = unhex(h); let n = v.len(); r.set_body(Body::from_reader(futures::io::Cursor::new(v), Some(n))); Ok(()) }
             "empty" => { r.set_body(Body::empty()); Ok(()) }
